@@ -212,7 +212,12 @@ func dataAccumulator(b literal.Builder) ElementHook {
 		o    *triple.Object
 	)
 
+	var current *Statement
 	hook = func(st *Statement, ce ConsumedElement) (ElementHook, error) {
+		if st != current {
+			// A new statement; drop what an earlier, failed one left behind.
+			current, s, p, o = st, nil, nil, nil
+		}
 		if ce.IsSymbol() {
 			return hook, nil
 		}
@@ -355,8 +360,13 @@ func whereSubjectClause() ElementHook {
 	var (
 		hook         ElementHook
 		lastNopToken *lexer.Token
+		current      *Statement
 	)
 	hook = func(st *Statement, ce ConsumedElement) (ElementHook, error) {
+		if st != current {
+			// A new statement; drop what an earlier, failed one left behind.
+			current, lastNopToken = st, nil
+		}
 		if ce.IsSymbol() {
 			return hook, nil
 		}
@@ -510,8 +520,13 @@ func wherePredicateClause() ElementHook {
 	var (
 		hook         ElementHook
 		lastNopToken *lexer.Token
+		current      *Statement
 	)
 	hook = func(st *Statement, ce ConsumedElement) (ElementHook, error) {
+		if st != current {
+			// A new statement; drop what an earlier, failed one left behind.
+			current, lastNopToken = st, nil
+		}
 		if ce.IsSymbol() {
 			return hook, nil
 		}
@@ -582,8 +597,13 @@ func whereObjectClause() ElementHook {
 	var (
 		hook         ElementHook
 		lastNopToken *lexer.Token
+		current      *Statement
 	)
 	hook = func(st *Statement, ce ConsumedElement) (ElementHook, error) {
+		if st != current {
+			// A new statement; drop what an earlier, failed one left behind.
+			current, lastNopToken = st, nil
+		}
 		if ce.IsSymbol() {
 			return hook, nil
 		}
@@ -786,8 +806,13 @@ func varAccumulator() ElementHook {
 	var (
 		hook         ElementHook
 		lastNopToken *lexer.Token
+		current      *Statement
 	)
 	hook = func(st *Statement, ce ConsumedElement) (ElementHook, error) {
+		if st != current {
+			// A new statement; drop what an earlier, failed one left behind.
+			current, lastNopToken = st, nil
+		}
 		if ce.IsSymbol() {
 			return hook, nil
 		}
@@ -1035,8 +1060,13 @@ func collectGlobalBounds() ElementHook {
 		hook      ElementHook
 		opToken   *lexer.Token
 		lastToken *lexer.Token
+		current   *Statement
 	)
 	hook = func(st *Statement, ce ConsumedElement) (ElementHook, error) {
+		if st != current {
+			// A new statement; drop what an earlier, failed one left behind.
+			current, opToken, lastToken = st, nil, nil
+		}
 		if ce.IsSymbol() {
 			return hook, nil
 		}
